@@ -16,6 +16,11 @@
 //!                   [SELF] = require(global_caller(that account)); <rule> is ignored (must be `A`)
 //!           acct    manifest calls an OWNER-protected method of an account created with
 //!                   owner role <rule> (`_owner_` key without entry → owner fallback)
+//!           pool    manifest calls `contribute` on a one-resource pool whose `pool_manager` role is
+//!                   <rule>; inside, the pool mints pool units, which the unit resource allows to
+//!                   require(global_caller(pool)) only — a global component as global caller
+//!           poolmint manifest calls `mint` on the pool-unit resource of a fixed pool directly:
+//!                   require(global_caller(pool 6)); <rule> is ignored (must be `A`)
 //!     rule  Polish notation: A | D | P <comp>;  comp = b <basic> | any <n> comp*n | all <n> comp*n
 //!           basic = req <ron> | amt <attos> <res> | cnt <n> <k> ron*k | allof <k> ron*k | anyof <k> ron*k
 //!           ron = R<res> | N<res>:<id>
@@ -27,8 +32,8 @@
 //! Resource indices: 0 package-of-direct-caller badge, 1 global-caller badge, 2 secp256k1 signature,
 //!   3 ed25519 signature, 10..12 fungible (100 units each in the account), 20,21 non-fungible
 //!   (integer ids 1..=6 in the account). Badge ids: packages 0 tx-processor 1 account 2 resource
-//!   3 fixture 4 faucet; global callers 0 frame-owned marker 1 TransactionProcessor blueprint
-//!   2 badge account 3 fixture component 4 faucet 5 the `self`-path account; signature ids = key index 0..3.
+//!   3 fixture 4 faucet 5 pool; global callers 0 frame-owned marker 1 TransactionProcessor blueprint
+//!   2 badge account 3 fixture component 4 faucet 5 the `self`-path account 6 the `poolmint` pool; signature ids = key index 0..3.
 //! Answer: ok | unauthorized | error | rule-rejected | bad-op.
 use harness::util::*;
 use radix_common::prelude::*;
@@ -37,6 +42,7 @@ use radix_engine::object_modules::role_assignment::RoleAssignmentError;
 use radix_engine::system::system_modules::auth::AuthError;
 use radix_engine::transaction::*;
 use radix_engine_interface::blueprints::package::PackageDefinition;
+use radix_engine_interface::blueprints::pool::*;
 use radix_engine_interface::prelude::*;
 use radix_transactions::model::*;
 use radix_transactions::prelude::*;
@@ -51,7 +57,7 @@ const F_RES: [u64; 3] = [10, 11, 12];
 const N_RES: [u64; 2] = [20, 21];
 const NF_IDS: u64 = 6;
 const ALL_RES: [u64; 9] = [0, 1, 2, 3, 10, 11, 12, 20, 21];
-const PATHS: [&str; 7] = ["mint", "owner", "vp", "assert", "vault", "self", "acct"];
+const PATHS: [&str; 9] = ["mint", "owner", "vp", "assert", "vault", "self", "acct", "pool", "poolmint"];
 
 // ------------------------------------------------------------------------------------------ rule AST
 
@@ -203,8 +209,8 @@ fn valid_res(r: u64) -> bool {
 /// ids a NonFungibleGlobalId of resource `r` may carry in this universe
 fn valid_nf(r: u64, id: u64) -> bool {
     match r {
-        0 => id <= 4,
-        1 => id <= 5,
+        0 => id <= 5,
+        1 => id <= 6,
         2 | 3 => id <= 3,
         _ => valid_res(r),
     }
@@ -405,7 +411,7 @@ fn parse_case(line: &str) -> Option<Case> {
     if t.i != t.t.len() {
         return None;
     }
-    if path == "self" && rule != Rule::AllowAll {
+    if (path == "self" || path == "poolmint") && rule != Rule::AllowAll {
         return None;
     }
     // deeper rules cannot be carried by a manifest (SBOR depth of the encoded instruction)
@@ -428,7 +434,7 @@ fn rule_depth(r: &Rule) -> usize {
     }
 }
 fn is_target_path(p: &str) -> bool {
-    matches!(p, "mint" | "owner" | "vault" | "acct")
+    matches!(p, "mint" | "owner" | "vault" | "acct" | "pool")
 }
 /// `lim <rule>`: the rule alone, all tokens consumed
 fn parse_lim(line: &str) -> Option<Rule> {
@@ -632,8 +638,8 @@ fn gen_ron(rng: &mut Rng) -> RoN {
         8..=11 => RoN::Nf(*rng.pick(&N_RES), 1 + rng.below(NF_IDS)),
         12..=13 => RoN::Nf(2, rng.below(4)),
         14 => RoN::Nf(3, rng.below(4)),
-        15 => RoN::Nf(0, rng.below(5)),
-        16 => RoN::Nf(1, rng.below(6)),
+        15 => RoN::Nf(0, rng.below(6)),
+        16 => RoN::Nf(1, rng.below(7)),
         17 => RoN::Res(*rng.pick(&[0u64, 1, 2, 3])),
         // non-fungible id of a fungible resource (ill-typed when a proof of it is around)
         18 => RoN::Nf(*rng.pick(&F_RES), 1 + rng.below(3)),
@@ -995,23 +1001,26 @@ impl Area for A {
                     writeln!(out, "{}", l).unwrap();
                     continue;
                 }
-                let path = match rng.below(20) {
+                let path = match rng.below(24) {
                     0..=5 => "mint",
                     6..=8 => "owner",
                     9..=12 => "vp",
                     13..=15 => "assert",
                     16..=17 => "vault",
                     18 => "acct",
-                    _ => "self",
+                    19 => "self",
+                    20..=22 => "pool",
+                    _ => "poolmint",
                 };
                 let (mut nf, sim, ops) = gen_zone(rng, &rule);
                 let mut rule_c = rule.clone();
-                if path == "self" {
+                if path == "self" || path == "poolmint" {
                     rule_c = Rule::AllowAll;
-                    match rng.below(4) {
+                    match rng.below(5) {
                         0 => nf.push((1, 5)),
                         1 => nf.push((1, 2)),
                         2 => nf.push((0, 1)),
+                        3 => nf.push((1, 6)),
                         _ => {}
                     }
                     nf.sort();
@@ -1045,6 +1054,13 @@ struct R {
     n: [ResourceAddress; 2],
     fixture_pkg: PackageAddress,
     fixture: ComponentAddress,
+    /// resource the pools hold (not part of the rule universe, so no proof ever locks it)
+    pool_res: ResourceAddress,
+    /// the fixed pool of the `poolmint` path (global caller 6) and its unit resource
+    pool0: ComponentAddress,
+    pool0_unit: ResourceAddress,
+    /// rule text -> pool whose pool_manager role is the rule
+    pool_cache: HashMap<String, Result<ComponentAddress, String>>,
     secp: Vec<Secp256k1PublicKey>,
     ed: Vec<Ed25519PublicKey>,
     /// rule text -> (resource with minter/withdrawer/owner = rule, account with owner = rule) or the creation failure answer
@@ -1089,9 +1105,51 @@ impl R {
         let fixture_pkg = ledger.publish_package(load_fixture(), Default::default(), OwnerRole::None);
         let m = ManifestBuilder::new().lock_fee_from_faucet().call_function(fixture_pkg, "AssertAccessRule", "new", manifest_args!()).build();
         let fixture = ledger.execute_manifest(m, vec![]).expect_commit_success().new_component_addresses()[0];
+        let m = ManifestBuilder::new()
+            .lock_fee_from_faucet()
+            .create_fungible_resource(OwnerRole::None, true, 18, FungibleResourceRoles::default(), metadata!(), Some(Decimal::from(1_000_000)))
+            .try_deposit_entire_worktop_or_abort(account, None)
+            .build();
+        let pool_res = ledger.execute_manifest(m, vec![]).expect_commit_success().new_resource_addresses()[0];
+        let (pool0, pool0_unit) = Self::mk_pool(&mut ledger, pool_res, AccessRule::AllowAll).unwrap();
         let secp = (0..4).map(|k| Secp256k1PrivateKey::from_u64(k + 1).unwrap().public_key()).collect();
         let ed = (0..4).map(|k| Ed25519PrivateKey::from_u64(k + 1).unwrap().public_key()).collect();
-        R { ledger, account, account2, f: [f[0], f[1], f[2]], n: [n[0], n[1]], fixture_pkg, fixture, secp, ed, cache: HashMap::new(), nonce: 100_000 }
+        R { ledger, account, account2, f: [f[0], f[1], f[2]], n: [n[0], n[1]], fixture_pkg, fixture, pool_res, pool0, pool0_unit, pool_cache: HashMap::new(), secp, ed, cache: HashMap::new(), nonce: 100_000 }
+    }
+
+    fn mk_pool(ledger: &mut DefaultLedgerSimulator, res: ResourceAddress, manager: AccessRule) -> Result<(ComponentAddress, ResourceAddress), String> {
+        let m = ManifestBuilder::new()
+            .lock_fee_from_faucet()
+            .call_function(
+                POOL_PACKAGE,
+                ONE_RESOURCE_POOL_BLUEPRINT,
+                ONE_RESOURCE_POOL_INSTANTIATE_IDENT,
+                OneResourcePoolInstantiateManifestInput { resource_address: res.into(), pool_manager_rule: manager.into(), owner_role: OwnerRole::None.into(), address_reservation: None },
+            )
+            .build();
+        let receipt = ledger.execute_manifest(m, vec![]);
+        match &receipt.result {
+            TransactionResult::Commit(c) => match &c.outcome {
+                TransactionOutcome::Success(_) => Ok((c.new_component_addresses()[0], c.new_resource_addresses()[0])),
+                TransactionOutcome::Failure(e) => match e {
+                    RuntimeError::ApplicationError(ApplicationError::RoleAssignmentError(RoleAssignmentError::ExceededMaxAccessRuleDepth))
+                    | RuntimeError::ApplicationError(ApplicationError::RoleAssignmentError(RoleAssignmentError::ExceededMaxAccessRuleNodes)) => Err("rule-rejected".to_string()),
+                    other => Err(format!("create-failed:{}", short(&format!("{:?}", other)))),
+                },
+            },
+            _ => Err("create-rejected".to_string()),
+        }
+    }
+
+    fn pool(&mut self, rule: &Rule) -> Result<ComponentAddress, String> {
+        let key = show_rule(rule);
+        if let Some(x) = self.pool_cache.get(&key) {
+            return x.clone();
+        }
+        let ar = self.rule(rule);
+        let out = Self::mk_pool(&mut self.ledger, self.pool_res, ar).map(|x| x.0);
+        self.pool_cache.insert(key, out.clone());
+        out
     }
 
     fn res(&self, r: u64) -> ResourceAddress {
@@ -1112,7 +1170,8 @@ impl R {
                 1 => ACCOUNT_PACKAGE,
                 2 => RESOURCE_PACKAGE,
                 3 => self.fixture_pkg,
-                _ => FAUCET_PACKAGE,
+                4 => FAUCET_PACKAGE,
+                _ => POOL_PACKAGE,
             }),
             1 => NonFungibleGlobalId::global_caller_badge(match i {
                 0 => GlobalCaller::GlobalObject(FRAME_OWNED_GLOBAL_MARKER),
@@ -1120,7 +1179,8 @@ impl R {
                 2 => GlobalCaller::GlobalObject(self.account.into()),
                 3 => GlobalCaller::GlobalObject(self.fixture.into()),
                 4 => GlobalCaller::GlobalObject(FAUCET.into()),
-                _ => GlobalCaller::GlobalObject(self.account2.into()),
+                5 => GlobalCaller::GlobalObject(self.account2.into()),
+                _ => GlobalCaller::GlobalObject(self.pool0.into()),
             }),
             2 => NonFungibleGlobalId::from_public_key(&self.secp[i as usize]),
             3 => NonFungibleGlobalId::from_public_key(&self.ed[i as usize]),
@@ -1214,6 +1274,14 @@ impl R {
             },
             _ => (XRD, self.account),
         };
+        let pool = if c.path == "pool" {
+            match self.pool(&c.rule) {
+                Ok(p) => p,
+                Err(a) => return a,
+            }
+        } else {
+            self.pool0
+        };
         // ---- root manifest
         let mut b = ManifestBuilder::new_v2().lock_fee_from_faucet();
         let mut pops = 0usize;
@@ -1239,6 +1307,11 @@ impl R {
             "vault" => b.withdraw_from_account(self.account, target, 1),
             "acct" => b.call_method(target_account, ACCOUNT_SET_DEFAULT_DEPOSIT_RULE_IDENT, AccountSetDefaultDepositRuleInput { default: DefaultDepositRule::Accept }),
             "self" => b.set_role(self.account2, ModuleId::Main, "securify", AccessRule::DenyAll),
+            "pool" => b
+                .withdraw_from_account(self.account, self.pool_res, 1)
+                .take_all_from_worktop(self.pool_res, "pb")
+                .with_name_lookup(|b, l| b.call_method(pool, ONE_RESOURCE_POOL_CONTRIBUTE_IDENT, OneResourcePoolContributeManifestInput { bucket: l.bucket("pb") })),
+            "poolmint" => b.mint_fungible(self.pool0_unit, 1),
             "vp" => {
                 let child = tb.add_subintent(ManifestBuilder::new_subintent_v2().verify_parent(rule.clone()).yield_to_parent(()).build(), vec![]);
                 b.use_child("c", child).yield_to_child("c", ())
@@ -1359,7 +1432,8 @@ impl Runner for R {
         let mut v = tx_visible(&c);
         // badges every callee sees for a call made by the manifest: the direct caller's package and the global caller
         let (applicable, local): (Rule, Vec<(u64, u64)>) = match c.path.as_str() {
-            "mint" | "owner" | "assert" | "acct" => (c.rule.clone(), vec![(0, 0), (1, 1)]),
+            "mint" | "owner" | "assert" | "acct" | "pool" => (c.rule.clone(), vec![(0, 0), (1, 1)]),
+            "poolmint" => (Rule::Protected(Comp::Basic(Basic::Require(RoN::Nf(1, 6)))), vec![(0, 0), (1, 1)]),
             "vp" => (c.rule.clone(), vec![(1, 1)]),
             // the vault is called by the account blueprint on behalf of the transaction processor
             "vault" => (c.rule.clone(), vec![(0, 1), (1, 1)]),
